@@ -1,4 +1,5 @@
 import Srctools.Proofs.C05
+import Srctools.Proofs.C05Round
 import Srctools.Gen.Angles
 import Srctools.Gen.Frozen
 set_option exponentiation.threshold 3000
@@ -65,6 +66,48 @@ theorem C05_mod1_not_enough :
     ∃ w : UInt64, (decode w).isFinite = true ∧ encode (mod360 (decode w)) = encode c360 ∧
       encode (norm360 (decode w)) = 0 :=
   ⟨0xBD06849B86A12B9B, by decide +kernel⟩
+
+/-! ## binary64 round-to-nearest-even *is* a rounding system -/
+
+/-- The rounding of the bit model (`roundMag`: what `+`, `*`, `/`, `float(str)` apply to their exact result) returns a
+representable magnitude that is at least as close to the exact value `n/d` as every other representable magnitude. -/
+theorem C05_rne_nearest (n d s : Nat) (hd : 0 < d) (hs : Rep s) :
+    Rep (roundMag n d) ∧
+    |((roundMag n d : Nat) : Rat) - (n : Rat) / (d : Rat)| ≤ |((s : Nat) : Rat) - (n : Rat) / (d : Rat)| :=
+  ⟨roundMag_rep' n d hd, roundMag_nearest n d s hd hs⟩
+
+/-- Hence `rndQ` (binary64 RNE on real values, exponent unbounded above) satisfies the laws of `RoundingSystem`:
+identity on representable values, monotone (across all binades), 0 and 360 representable — `b64RS` is the instance. -/
+theorem C05_rne_is_rounding_system :
+    (∀ q, b64RS.rnd q = rndQ q) ∧ (∀ q, RepQ q → rndQ q = q) ∧ (∀ a b, a ≤ b → rndQ a ≤ rndQ b) ∧ RepQ 0 ∧ RepQ 360 :=
+  ⟨fun _ => rfl, rndQ_rep, rndQ_mono, b64RS.rep_zero, b64RS.rep_360⟩
+
+/-- `+` and `*` of the bit model are `rndQ ∘ exact` whenever their result is finite. -/
+theorem C05_b64_ops_are_rne (s1 : Bool) (m1 : Nat) (s2 : Bool) (m2 : Nat) :
+    ((add (.fin s1 m1) (.fin s2 m2)).isFinite = true →
+      valQ (add (.fin s1 m1) (.fin s2 m2)) = rndQ (ratOf s1 m1 + ratOf s2 m2)) ∧
+    ((mul (.fin s1 m1) (.fin s2 m2)).isFinite = true →
+      valQ (mul (.fin s1 m1) (.fin s2 m2)) = rndQ (ratOf s1 m1 * ratOf s2 m2)) :=
+  ⟨add_is_rne s1 m1 s2 m2, mul_is_rne s1 m1 s2 m2⟩
+
+/-- The bit model's `x % 360.0 % 360.0` *is* the abstract `norm2Q` of that rounding system (exact C `fmod`, CPython's
+sign fix-up with one rounded addition): for every finite `x` the result is a finite non-negative double whose value is
+`norm2Q b64RS x`. -/
+theorem C05_norm_b64_is_abstract (s : Bool) (m : Nat) :
+    ∃ b, norm360 (.fin s m) = .fin false b ∧ ratOf false b = norm2Q b64RS (ratOf s m) :=
+  norm360_eq_norm2Q s m
+
+/-- … so the range theorem for doubles is an instance of the abstract one (`C05_norm_range b64RS`). -/
+theorem C05_norm_range_unified (s : Bool) (m : Nat) : ∃ b, norm360 (.fin s m) = .fin false b ∧ b < 360 * U := by
+  obtain ⟨b, hb, hq⟩ := C05_norm_b64_is_abstract s m
+  refine ⟨b, hb, ?_⟩
+  have h := (C05_norm_range b64RS (ratOf s m)).2
+  rw [← hq] at h
+  have hU := U_posQ
+  unfold ratOf at h
+  simp only [Bool.false_eq_true, if_false, one_mul] at h
+  rw [div_lt_iff₀ hU] at h
+  exact_mod_cast h
 
 /-! ## the invariant over histories -/
 
